@@ -16,7 +16,7 @@ func init() {
 	register(&core.Property{
 		ID:         "C15",
 		Title:      "Vectorized execution returns what row execution returns",
-		Decides:    "(sibling agreement only) with the feature flag off the vectorized dispatcher returns 'not handled' before doing anything else; the columnar frame encoder and decoder handle the same column types; the row and the vectorized engines derive sort directions from the request in the same way (same constant, same operator, per source field); the per-node limit template of the vectorized distributed plan applies the default limit before adding the offset, like the row plan; the measure block cursor's row copy (copyAllTo) and its columnar twin (copyAllToBatch) take the same canonical row window and count.",
+		Decides:    "(sibling agreement only) with the feature flag off the vectorized dispatcher returns 'not handled' before doing anything else; the columnar frame encoder and decoder handle the same column types; the row and the vectorized engines derive sort directions from the request in the same way (same constant, same operator, per source field); the per-node limit template of the vectorized distributed plan applies the default limit before adding the offset, like the row plan; the measure block cursor's row copy (copyAllTo) and its columnar twin (copyAllToBatch) take the same canonical row window and count.; if the row plan can force a series-ordered storage scan (GroupBy over the entity tags) the vectorized dispatcher can too",
 		NotDecided: "response equality for any query (translation validation, out of this family), error-boundary parity, parity of the vectorized merge/top-N comparators with the row heaps (their bodies mix type assertions and multi-kind values outside the comparison-only fragment).",
 		Technique:  "dominance of the flag exit, case-set agreement, cross-package agreement of enum comparisons, comparator truth tables, SSA def-use of the node limit, canonical symbolic expression equality between twins",
 		Run:        runC15,
@@ -164,6 +164,57 @@ func runC15(c *core.Ctx) {
 				}
 			}
 			r.Check(ok, rule, ssax.FuncName(f)+": node Limit = (limit or default) + offset", pos, "an unset limit must become the default before the offset is added, otherwise nodes are asked for 'offset' rows only")
+		}
+	}
+
+	// both engines force the series-ordered storage scan for GroupBy-by-entity: the set of order types each engine's
+	// scan builder may put into the storage options is the same
+	{
+		rule := "c15.scan-order-type-agreement"
+		orderTypes := func(f *ssa.Function) map[string]bool {
+			out := map[string]bool{}
+			if f == nil {
+				return out
+			}
+			byVal := r.constsByValue("pkg/index", "OrderByType")
+			for _, g := range append([]*ssa.Function{f}, f.AnonFuncs...) {
+				for _, b := range g.Blocks {
+					for _, in := range b.Instrs {
+						st, ok := in.(*ssa.Store)
+						if !ok || !strings.HasSuffix(ssax.FieldQName(st.Addr), "pkg/index.OrderBy.Type") {
+							continue
+						}
+						if k, isK := st.Val.(*ssa.Const); isK && k.Value != nil {
+							if n, ok := byVal[k.Value.ExactString()]; ok {
+								out[n] = true
+							}
+						}
+					}
+				}
+			}
+			return out
+		}
+		var row map[string]bool
+		for _, f := range r.P.ModuleFuncs("pkg/query/logical/measure") {
+			if strings.Contains(r.fpos(f), "measure_plan_indexscan_local.go:") {
+				for k := range orderTypes(f) {
+					if row == nil {
+						row = map[string]bool{}
+					}
+					row[k] = true
+				}
+			}
+		}
+		vec := orderTypes(r.fn(rule, "pkg/query/vectorized/measure/plan", "Dispatch"))
+		construct := "row local index scan / vectorized Dispatch: both can force the series-ordered scan"
+		switch {
+		case len(row) == 0:
+			r.Undecide(rule, construct, "", "the row plan stores no constant order type (anchor moved)")
+		case row["OrderByTypeSeries"] && !vec["OrderByTypeSeries"]:
+			// (the other order types reach the vectorized scan by copying the request's OrderBy, not by a constant)
+			r.Violate(rule, construct, "", fmt.Sprintf("the row plan can force a series-ordered storage scan (GroupBy over exactly the entity tags) but the vectorized dispatcher never does (it stores %v): the two engines scan in different orders and, with a limit or offset, return different series", sortedKeys(vec)))
+		default:
+			r.Hold(rule, construct, "", fmt.Sprintf("%v", sortedKeys(row)))
 		}
 	}
 
